@@ -3,6 +3,7 @@ import Varint.Model.External
 import Varint.Model.Chained
 import Varint.Model.Split
 import Driver.Util
+import Varint.Gen.Constants
 /- Scalar-family operations of the line protocol: must print exactly what harness/vh_scalar.c prints. -/
 namespace Driver
 open Varint
@@ -204,6 +205,33 @@ def sweep (fam : String) (seed cnt : Nat) : String :=
         go i st h
     s!"digest={hex (go cnt seed.toUInt64 0xcbf29ce484222325).toNat}"
 
+def famLen (fam : String) (v : Nat) : Nat :=
+  match fam with
+  | "tagged" => Tagged.len v
+  | "ext" => extLen v
+  | "chained" => Chained.len v
+  | "split" => Split.S.len v
+  | "sfull" => Split.F.len v
+  | "snz" => Split.NZ.len v
+  | "s16" => Split.S16.len v
+  | _ => 0
+
+def maxcell (fam : String) (m : Nat) : String :=
+  s!"l={famLen fam m} l1={if m = 2 ^ 64 - 1 then 10 else famLen fam (m + 1)}"
+
+def hdrmax (fam : String) (k : Nat) : String :=
+  if k < 1 ∨ k > 9 ∨ (k = 3 ∧ fam ≠ "tagged") then "bad-k" else
+  let tg := [0, Gen.TAGGED_MAX_1, Gen.TAGGED_MAX_2, Gen.TAGGED_MAX_3, Gen.TAGGED_MAX_4, Gen.TAGGED_MAX_5,
+             Gen.TAGGED_MAX_6, Gen.TAGGED_MAX_7, Gen.TAGGED_MAX_8, Gen.TAGGED_MAX_9]
+  let sf := [0, Gen.SPLIT_FULL_STORAGE_1, Gen.SPLIT_FULL_STORAGE_2, 0, Gen.SPLIT_FULL_STORAGE_4,
+             Gen.SPLIT_FULL_STORAGE_5, Gen.SPLIT_FULL_STORAGE_6, Gen.SPLIT_FULL_STORAGE_7,
+             Gen.SPLIT_FULL_STORAGE_8, Gen.SPLIT_FULL_STORAGE_9]
+  let nz := [0, Gen.SPLIT_FULL_NO_ZERO_STORAGE_1, Gen.SPLIT_FULL_NO_ZERO_STORAGE_2, 0,
+             Gen.SPLIT_FULL_NO_ZERO_STORAGE_4, Gen.SPLIT_FULL_NO_ZERO_STORAGE_5, Gen.SPLIT_FULL_NO_ZERO_STORAGE_6,
+             Gen.SPLIT_FULL_NO_ZERO_STORAGE_7, Gen.SPLIT_FULL_NO_ZERO_STORAGE_8, Gen.SPLIT_FULL_NO_ZERO_STORAGE_9]
+  let m := (if fam = "tagged" then tg else if fam = "sfull" then sf else nz).getD k 0
+  s!"m={hex m} {maxcell fam m}"
+
 def scalarOp (t : Array String) : Option String :=
   match argS t 0 with
   | "tagged.all" => some (taggedAll (argH t 1))
@@ -235,6 +263,8 @@ def scalarOp (t : Array String) : Option String :=
   | "sfull.dec" => some (splitDec famF (parseBytes (argS t 1)))
   | "snz.dec" => some (splitDec famNZ (parseBytes (argS t 1)))
   | "s16.dec" => some (splitDec famS16 (parseBytes (argS t 1)))
+  | "maxcell" => some (maxcell (argS t 1) (argH t 3))
+  | "hdrmax" => some (hdrmax (argS t 1) (argH t 2))
   | "sweep" => some (sweep (argS t 1) (argH t 2) (argH t 3))
   | _ => none
 
